@@ -207,7 +207,19 @@ class SchedWorld(World):
                 sources.append(src)
         self.sources = sources
         self.scheduler = TaskiqScheduler(broker, sources)
-        self.main = self.loop.create_task(run_scheduler_loop(self.scheduler))
+        entry = sc.get("entry", "loop")
+        if entry == "api":
+            from taskiq.api.scheduler import run_scheduler_task
+
+            self.main = self.loop.create_task(run_scheduler_task(self.scheduler, run_startup=True))
+        elif entry == "cli":
+            from taskiq.cli.scheduler.args import SchedulerArgs
+            from taskiq.cli.scheduler.run import run_scheduler
+
+            args = SchedulerArgs(scheduler=self.scheduler, modules=[], configure_logging=False, skip_first_run=False)
+            self.main = self.loop.create_task(run_scheduler(args))
+        else:
+            self.main = self.loop.create_task(run_scheduler_loop(self.scheduler))
 
     def enabled(self) -> List[Any]:
         timers = self.loop.pending_timers()
